@@ -558,6 +558,13 @@ def judge(spec, out):
     out.fail("pack-type", "pack() returned a %s for %s" % (type(b).__name__, shape), got=type(b).__name__)
     return None
 
+  # ---- the reference must agree with itself on this spec before it may judge POX (harness self-check)
+  rb = P.build(spec)
+  rd = P.dissect(rb)
+  if rd.error is not None or rd.bad_checks() or rd.protos() != P.expected_protos(spec):
+    raise HarnessError("reference builder and dissector disagree on %s: %s %s %s" % (shape, rd.error, rd.bad_checks(), rd.protos()))
+  out.label("same-bytes-as-reference" if rb == b else "differs-from-reference(not judged)")
+
   # ---- independent view of the emitted bytes
   d = P.dissect(b)
   exp = P.expected_protos(spec)
@@ -787,7 +794,7 @@ def enum_directed(tier):
 
 def plan(tier):
   from ..gen import pktspec
-  per = 120 if tier == "quick" else 3000
+  per = 300 if tier == "quick" else 3000
   shapes = pktspec.shapes(1500)
   drivers = [Enum("catalog", lambda: enum_catalog(tier), shards=4),
              Enum("directed-checksum-corners", lambda: enum_directed(tier), shards=2)]
